@@ -240,6 +240,7 @@ def _worker(args):
                         bytefam.i3_del_ins(seed, thorough)]
                 if thorough or qn in framing():
                     gens.append(bytefam.i4_pairs(seed, thorough))
+                gens += [bytefam.i11_names(seed), bytefam.i12_magic(seed) if len(seed) <= 600 else ()]
                 for gen in gens:
                     for tag, data in gen:
                         acc.count('inputs')
